@@ -119,6 +119,8 @@ struct GenParams {
   bool init_vars = false;         // routines start by giving some variables non-zero values, so that loops iterate
   bool stop_in_callee = false;    // a STOP statement is placed inside a called program
   int locality = 0;               // percent: a statement reuses the variable of the previous one; IFs come in chains on one variable
+  bool label_on_goto = false;     // a quarter of the labels are placed on GOTO statements
+  int tail_after_stop = 0;        // percent: main ends in  ...; STOP; t: v := v  with a jump to t from further up (code reachable only by that jump, a label at the very end)
   int min_defs = 0;               // at least this many definitions (many small routines)
   int label_names = 0;            // 1: label names from a pool in which one name is another plus digits (a, a1, a11, a2, a12, ...)
   int loop_back_head = 0;         // percent of routine bodies that begin with a counted label/GOTO loop whose label is the body's very first statement
